@@ -2,3 +2,4 @@ import Grol.Wire
 import Grol.Suite
 import Grol.Trie
 import Grol.TrieSuite
+import Grol.Eval.Suite
